@@ -41,11 +41,17 @@ class Table(ReverseProxyBasePlugin):
             (r'/tls$', [b'https://sec.example:8443/s']),
             r'/dyn/url',
             r'/dyn/lit',
+            r'/dyn/mut$',
         ]
 
     def handle_route(self, request, pattern):
         if pattern.pattern == r'/dyn/url':
             return Url.from_bytes(b'http://dyn.example:9000/d')
+        if pattern.pattern == r'/dyn/mut$':
+            # what the shipped ReverseProxyPlugin does: parse an upstream URL and adjust the parsed object for this request
+            u = Url.from_bytes(b'http://up1.example/get')
+            u.remainder += b'?id=7'
+            return u
         return memoryview(b'HTTP/1.1 200 OK\r\nContent-Length: 3\r\n\r\nlit')
 
 
@@ -70,6 +76,7 @@ TARGETS = {
     'multi': [('m1.example', 8081, False, b'/one'), ('m2.example', 80, False, None), ('m3.example', 443, True, b'/three')],
     'tls': [('sec.example', 8443, True, b'/s')],
     'dynurl': [('dyn.example', 9000, False, b'/d')],
+    'dynmut': [('up1.example', 80, False, b'/get?id=7')],
 }
 
 
@@ -85,6 +92,8 @@ def _route_of(path):
         return 'dynurl'
     if path.startswith('/dyn/lit'):
         return 'dynlit'
+    if path == '/dyn/mut':
+        return 'dynmut'
     return None
 
 
@@ -205,12 +214,54 @@ def route(p0: int, p1: int, p2: int, idx: int, v0: int, d0: int, d1: int) -> boo
     return ok()
 
 
+def sequence(v0: int, order: int) -> bool:
+    """
+    pre: 33 <= v0 <= 126
+    pre: 0 <= order <= 3
+    post: _
+    """
+    begin()
+    # several requests of one worker process, each on a new connection: what a dynamic route does with ITS parsed upstream URL must
+    # not leak into later requests (to the same dynamic route, or to a static route naming the same upstream URL)
+    seqs = [['/dyn/mut', '/get'], ['/dyn/mut', '/dyn/mut'], ['/get', '/dyn/mut', '/get'], ['/dyn/mut', '/get', '/dyn/mut']]
+    seq = None
+    for k in range(4):
+        if order == k:
+            seq = seqs[k]
+    CHOICE[0] = 0
+    with concrete():
+        env = envkit.new_env()
+    for i, pth in enumerate(seq):
+        with concrete():
+            h, cs = envkit.make_handler(FL[False], env, name='client%d' % i)
+        nconn = len(env.connects)
+        cs.inq.append(b'GET ' + pth.encode() + b' HTTP/1.1\r\nHost: front.example\r\nX-K: ' + B(v0) + b'\r\n\r\n')
+        try:
+            td = run(h.handle_events([cs.fd], []))
+        except Exception as e:
+            return fail('exception left handle_events', exc=repr(e), request=i, path=pth)
+        if td or h.must_flush_before_shutdown:
+            return fail('request %d (%s) matching a route was rejected' % (i, pth), out=repr(cat(h.work.buffer)[:60]))
+        host, port, tls, upath = TARGETS[_route_of(pth)][0]
+        if len(env.connects) != nconn + 1 or env.connects[nconn][0] != (host, port):
+            return fail('request %d (%s): wrong outbound connection' % (i, pth), connects=repr(env.connects[nconn:]))
+        sent = envkit.pending(h.plugin.route.upstream)
+        try:
+            m = refhttp.read_message(sent, False)
+        except refhttp.Malformed as e:
+            return fail('request %d sent upstream is malformed' % i, why=str(e))
+        if m['start'][1] != upath:
+            return fail('request %d (%s) forwarded with a path other than its route\'s URL path' % (i, pth), got=repr(m['start'][1]),
+                        want=repr(upath), history=repr(seq[:i]))
+    return ok()
+
+
 def selftest():
     import re
     # oracle validation: _route_of agrees with first-match re.match over the table on sample paths
-    pats = [(r'/get$', 'get'), (r'/multi', 'multi'), (r'/multi/x', 'multi'), (r'/tls$', 'tls'), (r'/dyn/url', 'dynurl'), (r'/dyn/lit', 'dynlit')]
+    pats = [(r'/get$', 'get'), (r'/multi', 'multi'), (r'/multi/x', 'multi'), (r'/tls$', 'tls'), (r'/dyn/url', 'dynurl'), (r'/dyn/lit', 'dynlit'), (r'/dyn/mut$', 'dynmut')]
     n = 0
-    for p in ['/get', '/get/', '/getx', '/ge', '/multi', '/multi/x', '/multiple', '/tls', '/tlsx', '/dyn/url', '/dyn/urlz', '/dyn/lit', '/dyn/li',
+    for p in ['/get', '/get/', '/getx', '/ge', '/multi', '/multi/x', '/multiple', '/tls', '/tlsx', '/dyn/url', '/dyn/urlz', '/dyn/lit', '/dyn/li', '/dyn/mut', '/dyn/mutx',
               '/', '/x', '/GET', '/api', '/get?x', '/tls?']:
         want = None
         for pat, nm in pats:
@@ -241,6 +292,13 @@ def obligations(tier):
         for prefix in ('/get', '/multi', '/dyn/url'):
             obs.append({'name': 'route.follow_%s.after%s' % (follow, prefix.replace('/', '_')), 'fn': 'route',
                         'cfg': {'rewrite': False, 'prefix': prefix, 'nsym': 0, 'method': 0, 'blen': 0, 'follow': follow}, 'timeout': T})
+    obs.append({'name': 'route.keep._dyn_mut+0.GET.b0', 'fn': 'route',
+                'cfg': {'rewrite': False, 'prefix': '/dyn/mut', 'nsym': 0, 'method': 0, 'blen': 0}, 'timeout': T})
+    obs.append({'name': 'sequence.dynamic_then_static', 'fn': 'sequence', 'cfg': {}, 'timeout': T})
+    # the same four histories natively: CrossHair bypasses functools caches while tracing, so state kept in such a cache is only visible
+    # to a native run (concrete vectors, NOT a solver claim)
+    obs.append({'name': 'concrete.sequence', 'kind': 'concrete', 'fn': 'sequence', 'cfg': {}, 'group': 'concrete',
+                'args_list': [[33, k] for k in range(4)] + [[126, 1]], 'timeout': 60})
     for mi in (2, 3):
         obs.append({'name': 'route.keep._get+0.%s.b1' % METHODS[mi].decode(), 'fn': 'route',
                     'cfg': {'rewrite': False, 'prefix': '/get', 'nsym': 0, 'method': mi, 'blen': 1}, 'timeout': T})
@@ -253,7 +311,8 @@ META = {
                  'overlapping shadowed route, https with port, dynamic returning a Url, dynamic returning a literal response); upstream choice '
                  'index symbolic; request path = 14 concrete prefixes + 0..2 symbolic visible characters (so it matches none/one/several routes); '
                  'methods GET/POST/PUT/DELETE; one header with a symbolic value byte; body 0..2 symbolic bytes; --rewrite-host-header on/off; '
-                 'the upstream reply (2 symbolic bytes) relayed back; a follow-up request on the same connection that matches no route / a literal route',
+                 'the upstream reply (2 symbolic bytes) relayed back; a follow-up request on the same connection that matches no route / a literal route; sequences of 2-3 requests on new '
+                 'connections of the same process mixing a dynamic route that adjusts its parsed upstream URL with a static route naming the same URL',
         'thorough': 'up to 3 symbolic path characters on more prefixes',
     },
     'outside': 'TLS handshake with the upstream (wrap() replaced by a recorder), regexes other than the table\'s, dynamic routes returning a '
